@@ -15,7 +15,7 @@ The structural MPD rules of the statement (required attributes, unique ids, lexi
 import z3
 from pyvc.vals import *          # noqa: F401,F403
 from pyvc.contract import Contract, Loop, Lemma, Group
-from contracts.xml_scan import interpolations, classify
+from contracts.xml_scan import interpolations, classify, content_protection_problems
 
 TAGS = 'dashlive/server/template_tags.py'
 CASES = [('amp', '&', '&amp;'), ('lt', '<', '&lt;'), ('gt', '>', '&gt;'), ('quot', '"', '&quot;'), ('plain', 'a', 'a'),
@@ -70,10 +70,17 @@ def lemma_no_unclassified(w):
     return [], z3.BoolVal(not bad)
 
 
+def lemma_content_protection(w):
+    """C11 (template level): ContentProtection fragments take default_KID, pssh and pro from the adaptation set's default
+    key id through the same factories the init segment uses, each under the test of its location"""
+    return [], z3.BoolVal(not content_protection_problems(w.get('__repo__', '/repo')))
+
+
 GROUP = Group(
     name='xml', world=lambda: {'__bases__': {}, 'is_markup': lambda x: isinstance(x, MarkupStr)},
     contracts=XMLSAFE,
-    lemmas=template_lemmas() + [Lemma('templates.every_interpolation_is_escaped_or_safe', ['C05'], lemma_no_unclassified)],
+    lemmas=template_lemmas() + [Lemma('templates.every_interpolation_is_escaped_or_safe', ['C05'], lemma_no_unclassified),
+                                 Lemma('templates.content_protection_uses_the_default_kid_factories', ['C11'], lemma_content_protection)],
     assumptions=[
         'C05: str.replace(p, r) with a one-character pattern p maps every character c of the text to r if c == p and to c '
         'otherwise, in order (Python semantics): escaping a text is escaping each of its characters',
